@@ -439,4 +439,145 @@ Proof.
     + cbn [fst]. split; [exact HJ1|lia].
     + intros acc x Hin Hacc. apply (fin2_inv lasts (Z.of_nat (length (a_states a1)))); auto.
 Qed.
+
+(* ---------- what the invariant gives ---------- *)
+Lemma snoc_split {A} (l g1 rest : list A) x X : l ++ [x] = g1 ++ X :: rest ->
+  (rest = [] /\ l = g1 /\ x = X) \/ exists rest', rest = rest' ++ [x] /\ l = g1 ++ X :: rest'.
+Proof.
+  induction rest as [|y rest' _] using rev_ind.
+  - intros H. apply app_inj_tail in H. destruct H as [-> ->]. auto.
+  - intros H. change (g1 ++ X :: rest' ++ [y]) with (g1 ++ (X :: rest') ++ [y]) in H. rewrite app_assoc in H.
+    apply app_inj_tail in H. destruct H as [-> ->]. right. eauto.
+Qed.
+
+Lemma lr0_valid_prefix i gamma it : lr0_valid g i gamma it ->
+  forall g1 X rest, gamma = g1 ++ X :: rest -> exists it1, lr0_valid g i g1 it1 /\ sym_after g it1 = Some X.
+Proof.
+  induction 1 as [nt eoi r Hi Hinp Hr|gamma it B r Hv IH Es Et Hr|gamma it X0 Hv IH Es]; intros g1 X rest E.
+  - destruct g1; discriminate.
+  - eapply IH; eauto.
+  - apply snoc_split in E. destruct E as [(-> & -> & ->)|(rest' & -> & ->)]; eauto.
+Qed.
+
+Lemma lr0_valid_vin i gamma it : lr0_valid g i gamma it -> vin i.
+Proof. induction 1; auto. split; eauto. Qed.
+
+Definition Dead (i : Z) (gamma : list Z) : Prop :=
+  exists g1 X rest q1, gamma = g1 ++ X :: rest /\ reach a0 i g1 q1 /\ trans_target a0 q1 X = None.
+
+Lemma dead_no_item i gamma it : Dead i gamma -> lr0_valid g i gamma it -> False.
+Proof.
+  intros (g1 & X & rest & q1 & -> & Hr & Hnone) Hv.
+  destruct (lr0_valid_prefix _ _ _ Hv g1 X rest eq_refl) as (it1 & Hv1 & Es).
+  destruct (H0_complete i g1 q1 it1 Hr Hv1) as (Hq1 & st & Hst & Hit).
+  destruct (H0_total q1 st it1 X Hq1 Hst Hit Es) as [q' Hq']. congruence.
+Qed.
+
+Section Result.
+Variable a : automaton.
+Variable h : Z -> Z.
+Hypothesis HJ : J a h.
+
+Lemma J_low q st : 0 <= q < n0 -> st_at a q st -> st_at a0 q st.
+Proof.
+  intros Hq [H1 H2]. destruct (j_pre _ _ HJ) as [extra E]. rewrite E in H2. rewrite nth_error_app1 in H2 by (unfold n0 in Hq; lia).
+  split; auto.
+Qed.
+
+Lemma J_kind_cases q st : st_at a q st ->
+  (synP st /\ its st = []) \/ (s_kind st = 0 /\ st_at a0 (h q) st /\ (n0 <= q -> s_seed st = None)).
+Proof. intros H. destruct (j_st _ _ HJ q st H) as [Hs|Hk]; [left; split; auto; apply synP_items; auto|right; auto]. Qed.
+
+Lemma fin_starts_present : starts_present g a.
+Proof.
+  intros i nt e Hi Hinp. destruct (H0_starts i nt e Hi Hinp) as (st & Hst & H).
+  exists st. split; auto. destruct (j_pre _ _ HJ) as [extra E]. rewrite E. rewrite nth_error_app1; auto.
+  apply nth_error_Some. congruence.
+Qed.
+
+Lemma fin_seeds_ok : seeds_ok g a.
+Proof.
+  intros q st nt Hq Hst Hseed Hkind.
+  destruct (J_kind_cases q st (conj Hq Hst)) as [[Hs _]|(_ & Hat & Hn)]; [exfalso; eapply synP_kind; eauto|].
+  destruct (Z_lt_le_dec q n0) as [Hlt|Hge]; [|rewrite (Hn Hge) in Hseed; discriminate].
+  rewrite (j_h0 _ _ HJ q ltac:(lia)) in Hat. destruct Hat as [_ Hat]. eapply H0_seeds; eauto.
+Qed.
+
+(* a path of a is a path of a0 through the origins, or it has left the collection a0 over a missing transition *)
+Lemma fin_backward i gamma q : reach a i gamma q -> vin i ->
+  exists stq, st_at a q stq /\ ((s_kind stq = 0 /\ reach a0 i gamma (h q)) \/ (synP stq /\ Dead i gamma)).
+Proof.
+  intros Hr Hvin. pose proof (vin_lt i Hvin) as Hi. pose proof (J_len a h HJ) as Hlen.
+  induction Hr as [|gamma q X q' Hr IH Hx].
+  - destruct (st_at_ex a i ltac:(lia)) as [st Hst]. exists st. split; auto. left.
+    pose proof (J_low i st Hi Hst) as [_ H0]. split; [eapply H0_kind; eauto|].
+    rewrite (j_h0 _ _ HJ i Hi). constructor.
+  - destruct IH as (stq & Hstq & IH). destruct (tt_targets a h _ _ _ HJ Hx) as [_ Hq'].
+    destruct (st_at_ex a q' Hq') as [stq' Hstq']. exists stq'. split; auto.
+    destruct (j_tr _ _ HJ q X q' stq stq' Hx Hstq Hstq') as [[Hs Hnone]|(Hk & Hk' & Hsome)].
+    + right. split; auto. destruct IH as [[Hk Hr0]|[_ (g1 & X1 & rest & q1 & -> & Hr1 & Hn1)]].
+      * exists gamma, X, [], (h q). auto.
+      * exists g1, X1, (rest ++ [X]), q1. rewrite <- app_assoc. auto.
+    + left. split; auto. destruct IH as [[_ Hr0]|[Hs _]]; [|exfalso; eapply synP_kind; eauto].
+      econstructor; eauto.
+Qed.
+
+Lemma fin_aut_complete : aut_complete g a.
+Proof.
+  intros i gamma q it Hr Hv. destruct (fin_backward i gamma q Hr (lr0_valid_vin _ _ _ Hv)) as (stq & Hstq & [[Hk Hr0]|[_ Hd]]).
+  - split; [apply Hstq|]. exists stq. split; [apply Hstq|].
+    destruct (J_kind_cases q stq Hstq) as [[Hs _]|(_ & [_ Hat] & _)]; [exfalso; eapply synP_kind; eauto|].
+    destruct (H0_complete i gamma (h q) it Hr0 Hv) as (_ & st & Hst & Hit). congruence.
+  - exfalso. eapply dead_no_item; eauto.
+Qed.
+
+Lemma fin_aut_sound : aut_sound g a.
+Proof.
+  intros q st it Hq Hst Hit.
+  destruct (J_kind_cases q st (conj Hq Hst)) as [[_ He]|(Hk & Hat & _)]; [unfold its in He; rewrite He in Hit; destruct Hit|].
+  destruct (j_reach _ _ HJ q st (conj Hq Hst) Hk) as (i & gamma & Hvin & Hr). exists i, gamma. split; auto.
+  destruct (fin_backward i gamma q Hr Hvin) as (stq & [_ Hstq] & [[_ Hr0]|[Hs _]]).
+  - destruct Hat as [_ Hat]. eapply H0_strong; eauto.
+  - assert (stq = st) by congruence. subst. exfalso. eapply synP_kind; eauto.
+Qed.
+
+Lemma fin_aut_total : aut_total g a.
+Proof.
+  intros q st it s Hq Hst Hit Es.
+  destruct (J_kind_cases q st (conj Hq Hst)) as [[_ He]|(Hk & [Hhq Hat] & _)]; [unfold its in He; rewrite He in Hit; destruct Hit|].
+  destruct (H0_total (h q) st it s Hhq Hat Hit Es) as [t0 Ht0].
+  destruct (j_fw _ _ HJ q st s t0 (conj Hq Hst) Hk Ht0) as (t & Ht & _). eauto.
+Qed.
+End Result.
 End Finals.
+
+(* ---------- the reference automaton of build_automaton ---------- *)
+Theorem build_automaton_ok g fuel :
+  wf_grammar g = true -> ref_done g fuel = true ->
+  let a := fst (build_automaton g fuel) in
+  seeds_ok g a /\ aut_sound g a /\ starts_present g a /\ aut_complete g a /\ aut_total g a.
+Proof.
+  intros Hwf Hd. pose proof (wf_grammar_terms g Hwf) as Hterms. destruct (wf_grammar_range g Hwf) as [Hr1 Hr2].
+  unfold build_automaton. fold (start_states g).
+  destruct (build_loop_inv2 g fuel _ 0 (start_INV g) Hd) as (k & Hk & HI).
+  set (a0 := build_loop fuel g (mkAut (start_states g) []) 0) in *.
+  assert (A1 : starts_present g a0) by (eapply inv_starts_present; eauto).
+  assert (A2 : seeds_ok g a0) by (eapply inv_seeds_ok; eauto).
+  assert (A3 : forall q st, nth_error (a_states a0) q = Some st -> s_kind st = 0) by (intros q st; eapply inv_kind; eauto).
+  assert (A4 : aut_complete g a0) by (eapply inv_aut_complete; eauto).
+  assert (A5 : aut_total g a0) by (eapply inv_aut_total; eauto).
+  assert (A6 : forall i gamma q, reach a0 i gamma q -> vin g i ->
+            forall st it, nth_error (a_states a0) (Z.to_nat q) = Some st -> In it (its g st) -> lr0_valid g i gamma it).
+  { intros i gamma q Hr [Hi Hinp]. eapply inv_strong_sound; eauto. }
+  assert (A7 : forall f s t, trans_target a0 f s = Some t ->
+            0 <= t /\ exists st, nth_error (a_states a0) (Z.to_nat t) = Some st /\ s_seed st = None).
+  { intros f s t H. destruct (inv_trans g a0 k HI f s t H) as (_ & st & _ & Ht & Hst & _). split; auto.
+    eexists. split; [exact Hst|reflexivity]. }
+  assert (A8 : forall f s t, In (f, s, t) (a_trans a0) -> trans_target a0 f s = Some t /\ 0 <= f < n0 a0 /\ 0 <= t < n0 a0).
+  { intros f s t H. apply (inv_trans_uniq g a0 k HI f s t H). }
+  assert (A9 : forall q st, st_at a0 q st -> exists i gamma, vin g i /\ reach a0 i gamma q).
+  { intros q st [Hq Hst]. destruct (build_loop_sound_input g fuel q st Hq Hst) as (i & gamma & Hi & Hr & _). exists i, gamma. auto. }
+  destruct (add_finals_J g a0 A1 A3 A7 A8 A9) as [h HJ].
+  cbv zeta. split; [eapply fin_seeds_ok; eauto|]. split; [eapply fin_aut_sound; eauto|].
+  split; [eapply fin_starts_present; eauto|]. split; [eapply fin_aut_complete; eauto|eapply fin_aut_total; eauto].
+Qed.
